@@ -291,7 +291,14 @@ class Repo:
                         if r and r[0] in self.modules:
                             add(a.asname or a.name, self.modules[r[0]].func(r[1]), 'import')
                         elif tgt in self.modules:
-                            raise AnalysisError(f'FST imports {a.name} from {tgt} but it is not defined there')
+                            # a name the module binds by assignment (a property built by a factory: `body = _node_or_list_accessor('body')`)
+                            # is an attribute of the class, not one of its functions; what the factory's closures do is analysed where they are
+                            bound = any(isinstance(st, (ast.Assign, ast.AnnAssign)) and
+                                        any(isinstance(t, ast.Name) and t.id == a.name
+                                            for t in (st.targets if isinstance(st, ast.Assign) else [st.target]))
+                                        for st in ast.walk(self.modules[tgt].tree) if isinstance(st, (ast.Assign, ast.AnnAssign)))
+                            if not bound:
+                                raise AnalysisError(f'FST imports {a.name} from {tgt} but it is not defined there')
                 elif isinstance(n, ast.Assign) and len(n.targets) == 1 and isinstance(n.targets[0], ast.Name):
                     v = n.value
                     if isinstance(v, ast.Attribute) and isinstance(v.value, ast.Name):
